@@ -5,7 +5,8 @@ import "sort"
 // AllRules is the registry of rules by id.
 func AllRules() map[string]*Rule {
 	m := map[string]*Rule{}
-	for _, r := range []*Rule{
+	var all []*Rule
+	all = append(all,
 		ruleVoteGrant(),
 		ruleTermVote(),
 		ruleSticky(),
@@ -21,26 +22,106 @@ func AllRules() map[string]*Rule {
 		ruleReadServe(),
 		ruleReadIndex(),
 		ruleLeaseBorn(),
-	} {
+		ruleConfGuard(),
+		ruleConfFollower(),
+		ruleVoteRequests(),
+	)
+	all = append(all, extraRules()...)
+	for _, r := range all {
 		m[r.ID] = r
 	}
 	return m
 }
 
-// Properties maps each claimed property to the rules that decide its structural clauses.
+// Properties maps each property to the rules that decide its structural clauses. A property
+// with no rules is not claimed (it is listed under not_applicable in MANIFEST.json).
 func Properties() map[string]*PropertySpec {
 	specs := []*PropertySpec{
 		{
-			ID:          "C02",
-			Rules:       []string{"VOTE-GRANT"},
-			Explanation: "static guard-fact analysis of the election code",
-			Decided:     "one vote per term at the grant",
-			NotDecided:  "the quorum-intersection argument; what peers do",
+			ID:       "C01",
+			Rules:    []string{"COMMIT-LEADER", "QUORUM-SHAPE", "COMMIT-FOLLOWER", "OWNERS"},
+			Thorough: []string{"AE-HANDLER", "VOTE-GRANT", "STATE-TRANSITIONS"},
+			Decided: "necessary conditions of state-machine safety visible in the code on every path: a leader advances commitIndex to i only with state = Leader, term(log[i]) = currentTerm and a strict majority of voters whose matchIndex ≥ i (counter fresh per index, voters only); " +
+				"a follower sets commitIndex only to Min(LeaderCommit, last index after append), monotonically, after accepting and appending; closed writer sets for commitIndex, lastApplied, StateMachine.Apply, Log.Truncate/Compact/DiscardEntries",
+			NotDecided: "that these local rules imply agreement (Raft's safety proof, trusted); equality of applied bytes; behaviour under snapshots (C10/C11)",
+		},
+		{
+			ID:       "C02",
+			Rules:    []string{"VOTE-GRANT", "TERM-VOTE", "STATE-TRANSITIONS", "COUNT-VOTES", "LEADER-ID", "QUORUM-SHAPE"},
+			Thorough: []string{"VOTE-REQUESTS", "STICKY"},
+			Decided: "one vote per term at the grant (term equal, vote free or same candidate, log restriction) and no vote reset without a strict term increase in the same critical section; term/vote persisted (fatal on error) before the mutex is released, before any send and before return; " +
+				"leader entry only inside becomeLeader from Candidate with a quorum of real, non-stale votes counted from current voters on a per-round counter (or as the single voter after a candidacy); requests carry LeaderID = id and Term = currentTerm of a leader",
+			NotDecided: "the quorum-intersection argument itself; what peers do; anything about message timing",
+		},
+		{
+			ID:         "C05",
+			Rules:      []string{"READ-SERVE", "CONFIRM-QUORUM", "READ-INDEX", "QUORUM-SHAPE"},
+			Thorough:   []string{"LEASE-RESET", "STATE-TRANSITIONS"},
+			Decided:    "reads are selected only by a leader that committed in its term, from lastApplied, only if readIndex ≤ applied and (linearizable ⇒ quorum-verified), and exactly the selected ones are applied; verification only on a quorum of replies from current voters of a still-leader, per-round counter; the recorded read index is the commit index only after a commit in the term, else the log end",
+			NotDecided: "that the confirming heartbeat round started after the read was registered (observation O1 in DESIGN.md: any in-flight round verifies all pending reads; no structural necessary condition exists, so nothing is armed); real-time order of histories",
+		},
+		{
+			ID:         "C06",
+			Rules:      []string{"AE-HANDLER", "COMMIT-FOLLOWER"},
+			Thorough:   []string{"OWNERS"},
+			Decided:    "the handler changes nothing for a stale term; accepts only if the previous entry matches (four exact rejection cases); truncates only at a request entry that conflicts (same index, different term) of an accepted request; appends nil or a suffix of the request's entries; commit index monotone and bounded by the verified prefix; every rejection carries the back-off hint",
+			NotDecided: "the global Log Matching invariant across nodes; that a truncated index is above the commit index (follows from leader completeness, not checked locally)",
+		},
+		{
+			ID:         "C07",
+			Rules:      []string{"VOTE-GRANT", "OWNERS"},
+			Thorough:   []string{"STATE-TRANSITIONS", "TERM-VOTE"},
+			Decided:    "the vote restriction is the lexicographic order on (lastTerm, lastIndex), identically for prevotes and real votes; only the AppendEntries handler truncates (a leader never truncates its own log); only takeSnapshot/InstallSnapshot trim the log",
+			NotDecided: "the induction over terms that turns the vote restriction into leader completeness",
+		},
+		{
+			ID:         "C08",
+			Rules:      []string{"TERM-VOTE", "VOTE-GRANT", "STICKY"},
+			Thorough:   []string{"STATE-TRANSITIONS"},
+			Decided:    "every store to currentTerm is +1, ≥ currentTerm on all paths, or the value read from storage in restore; votedFor is reset only together with a strict term increase; both are persisted (fatal on error) before leaving the critical section; a prevote changes no term, vote, state, contact time or persistent state",
+			NotDecided: "durability of SetState itself (C13); values seen in replies at run time",
+		},
+		{
+			ID:       "C09",
+			Rules:    []string{"CONF-CHANGE", "CONF-FOLLOW", "QUORUM-SHAPE", "COUNT-VOTES", "CONFIRM-QUORUM", "COMMIT-LEADER", "VOTE-REQUESTS", "STATE-TRANSITIONS"},
+			Thorough: []string{"VOTE-GRANT", "TERM-VOTE"},
+			Decided: "every quorum counter (commit, votes, leadership confirmation) counts voters of the configuration in force at the moment of counting; membership changes are appended only by a leader that committed this term with no pending change, and the appended configuration becomes the one in force; " +
+				"truncation falls back to the committed configuration; restore adopts configuration entries only; only voters campaign and are asked for votes",
+			NotDecided: "safety of single-server changes as a protocol; content of configuration futures; two known findings (D6 RemoveServer not pending, D7 follower adopts on apply) are reported as KNOWN-FINDING",
+		},
+		{
+			ID:         "C16",
+			Rules:      []string{"STICKY", "STATE-TRANSITIONS", "VOTE-REQUESTS"},
+			Decided:    "the stickiness gate (valid lease or leader contact within an election timeout) dominates every state change and every grant in the vote handler, for prevotes and real votes; prevotes write nothing; pre-candidacy writes neither term nor vote and only a prevote quorum leads to candidacy; only voters campaign",
+			NotDecided: "durations, 'prompt contact', the timing argument",
+		},
+		{
+			ID:         "C17",
+			Rules:      []string{"CONFIRM-QUORUM", "READ-SERVE", "READ-INDEX", "LEASE-RESET", "STICKY"},
+			Decided:    "the lease is renewed only when a round of replies from current voters reaches quorum on a still-leader (or single voter); a lease-based read is served only with a valid lease tested at serve time; a new lease is born expired and every leader entry installs a fresh one; voters holding a valid lease or recent leader contact refuse to vote",
+			NotDecided: "the timing inequality itself (given as an assumption in the property)",
 		},
 	}
+	specs = append(specs, extraSpecs()...)
 	m := map[string]*PropertySpec{}
 	for _, s := range specs {
+		if prev, ok := m[s.ID]; ok {
+			// merge rule lists contributed by other families
+			prev.Rules = append(prev.Rules, s.Rules...)
+			prev.Thorough = append(prev.Thorough, s.Thorough...)
+			if s.Decided != "" {
+				prev.Decided += "; " + s.Decided
+			}
+			if s.NotDecided != "" {
+				prev.NotDecided += "; " + s.NotDecided
+			}
+			continue
+		}
 		m[s.ID] = s
+	}
+	for _, s := range m {
+		s.Explanation = "Static analysis of /repo's current source (go/types + go/ssa, whole module, no execution): every obligation is an instance of a repository-specific rule on a concrete construct, evaluated on all paths and in every calling context. " +
+			"Decided: " + s.Decided + ". Not decided: " + s.NotDecided + "."
 	}
 	return m
 }
@@ -48,8 +129,10 @@ func Properties() map[string]*PropertySpec {
 // PropertyIDs returns the sorted ids of the claimed properties.
 func PropertyIDs() []string {
 	var out []string
-	for id := range Properties() {
-		out = append(out, id)
+	for id, s := range Properties() {
+		if len(s.Rules) > 0 {
+			out = append(out, id)
+		}
 	}
 	sort.Strings(out)
 	return out
